@@ -20,6 +20,12 @@ TEMPLATES = {
  'error-stops': ('say 1\nIf 9001\nsay 2 at 1\n\nsay 3\n', {'n1': {}}),
  'error-in-loop': ('X is 0\nWhile X is less than 3\nBuild X up\nsay X\nIf X is 9001\nsay mysterious at 0\n\n\nsay "end"\n', {'n1': {'lo': 0, 'hi': 4, 'integral': True}}),
  'loop-condition-re-evaluated': ('X is 9001\nWhile X\nsay X\nKnock X down\n\nsay "end"\n', {'n1': {'lo': 0, 'hi': 3, 'integral': True}}),
+ # conditions with a side effect: each evaluation is observable (a loop left by break / continue / an error must not evaluate it again)
+ 'effectful-condition-break': ('Rock the list with 1, 2, 3\nWhile roll the list\nsay 1\nBreak\n\nsay roll the list\n', {}),
+ 'effectful-condition-break-in-if': ('Rock the list with 0, 0, 5\nUntil roll the list\nIf 9001\nBreak\n\nsay 7\n\nsay roll the list\nsay roll the list\n', {'n1': {}}),
+ 'effectful-condition-continue': ('Rock the list with 1, 2, 0, 4\nX is 0\nWhile roll the list\nBuild X up\nIf X is 9001\nContinue\n\nsay X\n\nsay roll the list\n', {'n1': {'lo': 0, 'hi': 3, 'integral': True}}),
+ 'effectful-condition-if': ('Rock the list with 9001, 2, 3\nIf roll the list\nsay 1\nElse\nsay 2\n\nsay roll the list\n', {'n1': {}}),
+ 'effectful-condition-return': ('F takes P\nRock the list with 1, 2, 3\nWhile roll the list\ngive back roll the list\n\ngive back 9\n\nsay F taking 1\n', {}),
  'condition-kinds': ('If "§1"\nsay 1\n\nIf null\nsay 2\n\nIf mysterious\nsay 3\n\nIf 9001 is 9002\nsay 4\nElse\nsay 5\n', {'n1': {}, 'n2': {}, 's1': {}}),
 }
 BOUNDS = {'top-level blocks': 'every program of <= 3 (thorough 4) statements with a blank line (a new top-level block) at one or at every top-level boundary, and one before the final marker',
